@@ -6,6 +6,12 @@ checks = {
  "C01": dict(engine="E1+E2", technique="bounded-exhaustive enumeration of tensor states x complete coordinate box against a cell-identity reference model (explicit-state view graph for the view states)",
    text="Every element type x every shape of rank 0-4 (bounded dims) x constructions (row-major, declared column-major, converting column-major constructor) and every view state of the slice/transpose view graph to the stated depth x EVERY coordinate of the box [-2,dim+1]^rank and every wrong arity, for At and SetAt, executed on the real library and compared with the model's root cell by read-probe / write-probe on the harness-owned backing; exhaustive within the bounds, no sampling.",
    ref="4 C01", note="Trusted: Go runtime/reflect, the reference model (ref.View), the harness-owned backing slice. Bounds: dims<=3 (rank<=3), <=2 (rank 4) quick; dims<=3 all ranks + vectors/matrices to 5 thorough."),
+ "C02": dict(engine="E1+E2", technique="bounded-exhaustive enumeration of slice argument lists (complete per-axis alphabet) + explicit-state BFS over nested view states, against the NumPy-semantics reference model, compared by cell identity",
+   text="Every source state (row-major, declared column-major, lazily transposed; sliced / step-sliced / transposed-sliced in the reduced sweep) x shapes of rank 1-4 (bounded dims) x every prefix length x the complete per-axis argument alphabet (nil, every index -1..n, every (start,end,step) triple in the stated box) is executed on the real Slice / SliceInto / Narrow and compared with the model by the identity of the root cells the result denotes plus an At read-back; nested slicing is a BFS to depth 3 over real view states with dedup on the canonical state key; invalid arguments must return an error, sources must be unchanged.",
+   ref="4 C02", note="Trusted: reference model ref.View.Slice; At (decided by C01) for the read-back; public Shape/Strides + window position for cell identity. Empty ranges and negative steps are not judged (statement is silent). Two recorded findings (leading-axis stepped range floors; single-element results always scalar) are attributed only to results that equal the defect model exactly."),
+ "C03": dict(engine="E2", technique="explicit-state breadth-first search over real tensors (successor = replay + one transposition operation) with a permutation reference model; both build configurations",
+   text="BFS over operation sequences (depth 2-4 by rank) whose alphabet is T(p) for EVERY permutation p of the rank, T(), UT, Transpose, Materialize, SafeT(p), RollAxis(a,s,safe) for every a,s, tensor.T and tensor.Transpose, from contiguous, column-major, sliced and step-sliced roots of 6 element widths, ranks 0-5; every state is deduplicated on (metadata, storage bytes, pending) and every transition is compared with the model (permuted logical array, exact restore by UT, storage order and default strides after physical transposition, receiver untouched by the copying forms). Built and run twice: default tags and -tags inplacetranspose.",
+   ref="4 C03", note="Trusted: ref.Arr.Permute, At (C01). Recorded findings (column-major data movement, strided vector views, no-op SafeT bookkeeping, two inplacetranspose-only defects) are matched by precondition tags computed from the receiver's state; anything else is a violation."),
 }
 pending = {}
 for i in range(2,21):
